@@ -3,7 +3,7 @@ from analysis.facts import norm
 from analysis.cfg import Cfg
 from analysis.flow import DefUse, backward, find_calls, callee_is, callee_ends, op_local, op_const, bool_branch, variant_arms, field_chain, static_of
 from analysis.table import describe_val
-from rules.common import need
+from rules.common import need, inl, unit
 
 LOOP = "net::event_loop::EventLoop"
 OP = "net::operator::linux::Operator"
@@ -13,6 +13,10 @@ def wrappers(f):
     out = []
     for b in f.bodies:
         if b.kind == "AssocFn" and b.npath.startswith(LOOP + "::") and b.npath.rsplit("::", 1)[1] not in ("new", "adapt_io_uring"):
+            if not any(norm(t.get("callee") or "").startswith(OP + "::") for (_x, t) in b.calls()):
+                continue
+            # the wrapper as one unit: a slot-allocation helper shared by the family is spliced in
+            b = inl(f, b, keep={cb.npath for cb in f.bodies if cb.npath.startswith(OP + "::")})
             ops = [(x, t) for (x, t) in b.calls() if norm(t.get("callee") or "").startswith(OP + "::")]
             if ops and any(norm(t.get("callee") or "") == LOOP + "::token" for (_x, t) in b.calls()):
                 out.append((b, ops))
@@ -53,7 +57,7 @@ def register_first_rule(run, f, rid):
 
 def dispatch_rule(run, f, rid):
     run.rule(rid, "adapt_io_uring stores each completion's own result into the slot keyed by that completion's user_data and resumes that token; only the internal timeout entry is skipped", floor=1, template="T5/T1")
-    b = need(run, rid, f, LOOP + "::adapt_io_uring")
+    b = unit(run, rid, f, LOOP + "::adapt_io_uring")
     if b is None:
         return
     cfg = Cfg(b)
@@ -62,7 +66,8 @@ def dispatch_rule(run, f, rid):
     ud = find_calls(b, callee_is("io_uring::cqueue::Entry::user_data"))
     rs = find_calls(b, callee_is("io_uring::cqueue::Entry::result"))
     rm = [(x, t) for (x, t) in find_calls(b, callee_is("dashmap::DashMap::remove")) if (field_chain(b, du, t["args"][0]) or [""])[-1] == "syscall_wait_table"]
-    re = find_calls(b, callee_is(LOOP + "::resume"))
+    # EventLoop::resume(token), or -- when the author inlined it -- the Scheduler::try_resume(token) it performs
+    re = find_calls(b, callee_is(LOOP + "::resume")) or find_calls(b, callee_is("scheduler::Scheduler::try_resume"))
     why = []
     if len(nx) != 1 or len(ud) != 1 or len(rs) != 1 or len(rm) != 1 or len(re) != 1:
         why.append("expected one CQE loop with user_data(), result(), wait-table remove and resume (found %d/%d/%d/%d/%d)" % (len(nx), len(ud), len(rs), len(rm), len(re)))
@@ -124,7 +129,13 @@ def dispatch_rule(run, f, rid):
                             br = bool_branch(b, cfg, du, s["lhs"]["l"], [blk["id"]])
                             if br:
                                 exempt.append(br[0] if s["rhs"]["op"] == "Eq" else br[1])
-            r = cfg.reachable({some}, avoid={re[0][0]} | set(exempt))
+            # the point every completion must pass: the resume call, or -- with resume inlined -- the lookup of the token in
+            # COROUTINE_TOKENS that guards try_resume (a completion of a thread caller has no coroutine to resume)
+            must = {re[0][0]}
+            if norm(re[0][1].get("callee") or "") != LOOP + "::resume":
+                g = [x for (x, t) in find_calls(b, callee_is("dashmap::DashSet::remove")) if static_of(b, du, t["args"][0]) == "net::event_loop::COROUTINE_TOKENS" and cfg.dominates(x, re[0][0])]
+                must = set(g) or must
+            r = cfg.reachable({some}, avoid=must | set(exempt))
             if nx[0] in r:
                 why.append("a completion other than the internal timeout entry can be skipped without delivering its result / resuming its waiter")
     if why:
